@@ -504,9 +504,20 @@ func (dd *msgpipelineDelivery) BodyNonAtomic(ctx context.Context, c module.Statu
 func (dd msgpipelineDelivery) Commit(ctx context.Context) error {
 	dd.close()
 
+	committed := make(map[*delivery]struct{}, len(dd.deliveries))
 	for _, delivery := range dd.deliveries {
+		committed[delivery] = struct{}{}
 		if err := delivery.Commit(ctx); err != nil {
 			// No point in Committing remaining deliveries, everything is broken already.
+			// They still have to be finalized though, so Abort them.
+			for _, other := range dd.deliveries {
+				if _, ok := committed[other]; ok {
+					continue
+				}
+				if abortErr := other.Abort(ctx); abortErr != nil {
+					dd.log.Debugf("delivery.Abort failure, Delivery object = %T: %v", other, abortErr)
+				}
+			}
 			return err
 		}
 	}
